@@ -55,7 +55,7 @@ func TestC03Pure(t *testing.T) {
 			idx++
 			continue
 		}
-		em.Marker("begin", idx)
+		stBegin(em, idx)
 		impl := &echoImpl{unary: func(ctx context.Context, req []byte) ([]byte, bool, error) {
 			return uc.reply, uc.has, uc.k.err()
 		}}
@@ -74,7 +74,7 @@ func TestC03Pure(t *testing.T) {
 		em.Emit(Rec{Idx: idx, Kind: "pipe-unary", Desc: map[string]any{"err": uc.k.desc(), "reply": uc.has},
 			Tags: append(uc.k.tags(), "part=pipe-unary", fmt.Sprintf("reply=%v", uc.has)),
 			Coq:  fmt.Sprintf("CPipeU %s %s %s %s", uc.k.coq(reg), replyT, reg.envCoq(rep), obs)})
-		em.Marker("end", idx)
+		stEnd(em, idx)
 		idx++
 	}
 
@@ -88,7 +88,7 @@ func TestC03Pure(t *testing.T) {
 				idx++
 				continue
 			}
-			em.Marker("begin", idx)
+			stBegin(em, idx)
 			rw := &recRW{}
 			ss, _ := server.NewServerStream(context.Background(), 9, "/verif.Echo/Bidi", "dst", "src", rw, nil)
 			var msgs []int64
@@ -106,7 +106,7 @@ func TestC03Pure(t *testing.T) {
 			em.Emit(Rec{Idx: idx, Kind: "pipe-stream", Desc: map[string]any{"err": k.desc(), "msgs": nm},
 				Tags: append(k.tags(), "part=pipe-stream", fmt.Sprintf("position=after-%d-msgs", nm)),
 				Coq:  fmt.Sprintf("CPipeS %s %s %s %s", k.coq(reg), zs(msgs), coqList(envT), obs)})
-			em.Marker("end", idx)
+			stEnd(em, idx)
 			idx++
 		}
 	}
@@ -130,11 +130,11 @@ func TestC03Pure(t *testing.T) {
 					tags := []string{"part=foreign", fmt.Sprintf("f:status=%v", map[bool]string{true: "none", false: map[bool]string{true: "ok", false: "nonok"}[s.GetCode() == 0]}[s == nil]),
 						fmt.Sprintf("f:body=%d", bi), fmt.Sprintf("f:trailer=%v", tr != nil), fmt.Sprintf("f:reset=%v", rs != nil)}
 					if want(idx) {
-						em.Marker("begin", idx)
+						stBegin(em, idx)
 						obs := stClientUnary(t, reg, env)
 						em.Emit(Rec{Idx: idx, Kind: "foreign-unary", Desc: map[string]any{"status": si, "body": bi, "trailer": ti, "reset": ri},
 							Tags: append(tags, "f:kind=unary"), Coq: fmt.Sprintf("CCliUnary %s %s", reg.envCoq(env), obs)})
-						em.Marker("end", idx)
+						stEnd(em, idx)
 					}
 					idx++
 					// as the only response of a stream, and after one ordinary message
@@ -143,7 +143,7 @@ func TestC03Pure(t *testing.T) {
 							break // an undecodable message is RecvMsg's codec error, not a terminal state: left out
 						}
 						if want(idx) {
-							em.Marker("begin", idx)
+							stBegin(em, idx)
 							var seq []*Rpc
 							if pre == 1 {
 								mb, _ := protoMarshal(bv([]byte("first")))
@@ -162,7 +162,7 @@ func TestC03Pure(t *testing.T) {
 							obs := stClientStream(t, reg, seq)
 							em.Emit(Rec{Idx: idx, Kind: "foreign-stream", Desc: map[string]any{"status": si, "body": bi, "trailer": ti, "reset": ri, "pre": pre},
 								Tags: append(tags, "f:kind=stream"), Coq: fmt.Sprintf("CCliStream %s %s", coqList(envT), obs)})
-							em.Marker("end", idx)
+							stEnd(em, idx)
 						}
 						idx++
 					}
